@@ -73,7 +73,8 @@ def build_registry(prog, contracts):
     tmp_st = State(Shared(), [])
     ip = I.Interp(prog, tmp_st)
     reg = {}
-    for target, c in contracts.items():
+    for key, c in contracts.items():
+        target = key
         modname = 'contracts.' + os.path.splitext(os.path.basename(c.file))[0]
         m = ip.import_name(modname)
         f = m.env.vars.get(c.spec_name)
@@ -467,7 +468,7 @@ def run_path(prog, registry, contract, body_q, case_build, prefix, shared, modul
     stB.in_build = False
     if (stB.next_tok, stB.next_oid) != (ntok0, noid0):
         raise Unsupported('non-deterministic case builder')
-    spec = registry[target]
+    spec = registry[contract.key]
     ipB.depth = 1      # the spec itself is never replaced
     outB = execute(ipB, spec, argsB)
 
@@ -495,6 +496,10 @@ def run_path(prog, registry, contract, body_q, case_build, prefix, shared, modul
                 cmp.val('arg ' + k, argsA[k], argsB[k])
         cmp.heap_pass()
         cmp.ext_calls()
+        if opts and opts.get('post_body'):
+            # condition from the property statement evaluated on the *code's* post-state
+            for nm, cond in opts['post_body'](fA, argsA, outA.value):
+                cmp.goals.append(('post_body: ' + nm, cond))
         if opts and opts.get('post'):
             # postcondition / invariant taken from the property statement, evaluated on the contract's post-state
             for nm, cond in opts['post'](fB, argsB, outB.value):
